@@ -420,6 +420,9 @@ func (r *Runner) Do(op Op) error {
 			if op.ReadMask != nil {
 				ropts = append(ropts, resource.WithReadMask(lib.CloneMask(op.ReadMask)))
 			}
+			if fn := IncludeFn(op.Include); fn != nil {
+				ropts = append(ropts, resource.WithInclude(resource.FilterFunc(fn)))
+			}
 			list = r.Col.List(ropts...)
 		case OpSet:
 			in = proto.Clone(op.Val)
@@ -459,7 +462,7 @@ func (r *Runner) Do(op Op) error {
 	case OpGet:
 		out = r.Model.Get(op.ID, op.ReadMask)
 	case OpList:
-		out = r.Model.List(op.ReadMask, nil)
+		out = r.Model.List(op.ReadMask, IncludeFn(op.Include))
 	case OpDelete:
 		out = r.Model.Delete(op)
 	default:
